@@ -243,7 +243,8 @@ Fixpoint diverging_pairs (h : h3) (keys : list key) (ps : list npeer) (membershi
 
 (* ---- model = implementation: which deltas every peer merged (trust + forwarding + the ancestors a merged block drags
    in), what its own writes published, its pinset and its tracker calls after merging them in the observed order *)
-Definition signer_of (h : h3) (id : bid) : N := match aget id (h3_by h) with Some p => p | None => 0 end.
+(* the peers that published block id (two peers that write the same pin over the same heads publish one block) *)
+Definition signers_of (h : h3) (id : bid) : list N := map snd (filter (fun ip => fst ip =? id) (h3_by h)).
 Definition parents_of (h : h3) (id : bid) : list bid := match aget id (h3_parents h) with Some l => l | None => [] end.
 
 (* the blocks x is predicted to merge: those whose signed broadcast is deliverable to x, and everything below them *)
@@ -254,7 +255,7 @@ Fixpoint close_parents (n : nat) (h : h3) (ids : list bid) : list bid :=
   end.
 Definition predicted_merged (h : h3) (x : N) : list bid :=
   close_parents (length (h3_deltas h)) h
-    (map d_id (filter (fun d => h3_deliverable h (signer_of h (d_id d)) x) (h3_deltas h))).
+    (map d_id (filter (fun d => existsb (fun sg => h3_deliverable h sg x) (signers_of h (d_id d))) (h3_deltas h))).
 
 Definition tcall_key (c : tcall) : N * N * N :=
   match c with Track k v => (k, 1, v) | Untrack k => (k, 0, 0) end.
@@ -279,7 +280,7 @@ Definition net_merge_step (h : h3) (x : npeer) (a : mrep * list hook) (id : bid)
       let own_bad :=
         match op_of_block x id with
         | Some o => negb (delta_matches d (m_height m) (delta_add_op (m_st m) ([], []) o))     (* what the write path builds *)
-        | None => signer_of h id =? np_id x                                                       (* a block of x no operation of x made *)
+        | None => memN (np_id x) (signers_of h id)                                                (* a block of x no operation of x made *)
         end in
       let '(m1, hs) := merge_obs m d in
       (mk_mrep (m_st m1) (m_height m1) (m_bad m1 || own_bad), snd a ++ hs)
